@@ -322,7 +322,10 @@ pub fn check_cli(c: &CliCase) -> Result<bool, Violation> {
     }
     // a refusal must come with a message; a non-zero status next to regular output is not a refusal
     // (exit statuses are not prescribed)
-    if out.code != Some(0) && out.err().trim().is_empty() && out.out().trim().is_empty() {
+    let wrote_file = ["out.dot", "tree.dot"]
+        .iter()
+        .any(|f| std::fs::metadata(scratch.path(f)).map(|m| m.len() > 0).unwrap_or(false));
+    if out.code != Some(0) && out.err().trim().is_empty() && out.out().trim().is_empty() && !wrote_file {
         return Err(Violation::new(
             format!("rsbdd exited with {:?} without any message or output", out.code),
             cj,
